@@ -318,7 +318,7 @@ fn default_cases() -> Vec<(String, ADoc)> {
     for (kname, k) in &kinds {
         for ty in ["CDATA", "NMTOKENS", "ID"] {
             for written in [false, true] {
-                for placement in ["single", "second-attlist", "repeated-first-wins", "repeated-in-one-attlist", "other-element", "prefixed-name", "two-attributes", "on-child", "same-local-name-other-prefix", "same-local-name-other-prefix-written"] {
+                for placement in ["single", "second-attlist", "repeated-first-wins", "repeated-in-one-attlist", "other-element", "prefixed-name", "two-attributes", "on-child", "same-local-name-other-prefix", "same-local-name-other-prefix-written", "beside-defaulted-nsdecl", "beside-written-and-defaulted-nsdecl"] {
                     let def = |name: &str, dflt: ADefault| AAttDef { name: name.to_string(), ty: ty.to_string(), default: dflt };
                     let aname = if placement == "prefixed-name" { "p:a" } else { "a" };
                     let mut decls: Vec<ADecl> = vec![];
@@ -345,11 +345,19 @@ fn default_cases() -> Vec<(String, ADoc)> {
                         "same-local-name-other-prefix" | "same-local-name-other-prefix-written" => {
                             decls.push(ADecl::AttList { elem: "r".into(), defs: vec![def("a", k.clone()), def("p:a", ADefault::Value { fixed: false, value: t("pv") })] })
                         }
+                        // a namespace declaration defaulted beside the attribute: it is a declaration, never an attribute,
+                        // whether the start tag writes it too or not
+                        "beside-defaulted-nsdecl" | "beside-written-and-defaulted-nsdecl" => {
+                            decls.push(ADecl::AttList { elem: "r".into(), defs: vec![def("xmlns:p", ADefault::Value { fixed: false, value: t("u") }), def("a", k.clone())] })
+                        }
                         "two-attributes" => decls.push(ADecl::AttList { elem: "r".into(), defs: vec![def("a", k.clone()), def("b", ADefault::Value { fixed: false, value: t("bv") })] }),
                         _ => decls.push(ADecl::AttList { elem: "c".into(), defs: vec![def("a", k.clone())] }),
                     }
                     let mut root = el("r", vec![], vec![e("c", vec![], vec![])]);
                     if placement == "prefixed-name" || placement.starts_with("same-local-name") {
+                        root.attrs.push(at("xmlns:p", "u"));
+                    }
+                    if placement == "beside-written-and-defaulted-nsdecl" {
                         root.attrs.push(at("xmlns:p", "u"));
                     }
                     if placement == "same-local-name-other-prefix-written" {
